@@ -146,7 +146,7 @@ theorem count_cons_ind (l : List Nat) (a i : Nat) : (a :: l).count i = l.count i
   by_cases h : i = a
   · subst h; simp [ind]
   · have : ¬ a = i := fun h' => h h'.symm
-    simp [List.count_cons, ind, h, this]
+    simp [ind, h, this]
 
 /-- `pick` returns an element of the list -/
 theorem pick_mem (l : List Nat) (j x : Nat) (h : pick l j = some x) : x ∈ l := by
@@ -177,5 +177,37 @@ theorem sum_map_erase (f : Nat → Nat) (l : List Nat) (x : Nat) (h : x ∈ l) :
       have hb : (a == x) = false := by simp [hax]
       simp only [List.erase_cons, hb, List.map_cons, List.sum_cons]
       simp at this ⊢; omega
+
+theorem getElem?_lt {α : Type} (l : List α) (i : Nat) (a : α) (h : l[i]? = some a) : i < l.length := by
+  rcases Nat.lt_or_ge i l.length with h' | h'
+  · exact h'
+  · rw [List.getElem?_eq_none h'] at h; cases h
+
+/-- what one transition of thread `tid` does, seen from that thread -/
+theorem step_at (cfg : Cfg) (s : State) (tid : Nat) (th : Thread) (hth : s.threads[tid]? = some th) :
+    (step cfg s tid).threads[tid]? = some (exec cfg s.mem th).2 ∧
+    (step cfg s tid).mem = (exec cfg s.mem th).1 := by
+  rw [step_some cfg s tid th hth]
+  simp [getElem?_lt _ _ _ hth]
+
+theorem run_replicate_succ (cfg : Cfg) (s : State) (tid n : Nat) :
+    run cfg s (List.replicate (n + 1) tid) = run cfg (step cfg s tid) (List.replicate n tid) := rfl
+
+/-- thread `tid`, running alone from `s`, reaches a state satisfying `P` -/
+def Solo (cfg : Cfg) (tid : Nat) (s : State) (P : State → Prop) : Prop :=
+  ∃ n, P (run cfg s (List.replicate n tid))
+
+theorem Solo.now {cfg : Cfg} {tid : Nat} {s : State} {P : State → Prop} (h : P s) : Solo cfg tid s P := ⟨0, h⟩
+theorem Solo.next {cfg : Cfg} {tid : Nat} {s : State} {P : State → Prop}
+    (h : Solo cfg tid (step cfg s tid) P) : Solo cfg tid s P := by
+  obtain ⟨n, hn⟩ := h
+  exact ⟨n + 1, hn⟩
+
+/-- one solo transition with a known `exec` result -/
+theorem solo_exec {cfg : Cfg} {tid : Nat} {s : State} {th th' : Thread} {m' : Mem}
+    (hth : s.threads[tid]? = some th) (he : exec cfg s.mem th = (m', th')) :
+    (step cfg s tid).threads[tid]? = some th' ∧ (step cfg s tid).mem = m' := by
+  have := step_at cfg s tid th hth
+  rw [he] at this; exact this
 
 end CMacVerif.Atomics
